@@ -111,20 +111,6 @@ Section Sonic.
      JSON number syntax are outside the model *)
   Definition not_json (r : res val) : res val := if is_opt im then Unk else r.
 
-  (* optdec hands the content of a `,string` string field to encoding/json (helper.go: Unquote = json.Unmarshal into a string):
-     JSON whitespace around the inner literal is accepted, and so is a padded `null` (which stores nothing).
-     opt_trim b = the decoded content without that whitespace, when there is some *)
-  Definition json_ws (c : N) : bool := (c =? 32) || (c =? 9) || (c =? 10) || (c =? 13).
-  Fixpoint drop_ws (s : bytes) : bytes := match s with c :: r => if json_ws c then drop_ws r else s | [] => [] end.
-  Definition trim_ws (s : bytes) : bytes := rev (drop_ws (rev (drop_ws s))).
-  Definition opt_trim (b : bytes) : option bytes :=
-    if is_opt im then
-      match sunq b with
-      | Some s => if bytes_eqb s (trim_ws s) then None else Some (trim_ws s)
-      | None => None
-      end
-    else None.
-
   Definition sonic_quoted_base (t : ty) (b : bytes) : res val :=
     match t with
     | TBool => if bytes_eqb b lit_true then Ok (VBool true) else if bytes_eqb b lit_false then Ok (VBool false) else not_json Err
@@ -133,23 +119,6 @@ Section Sonic.
     | TF32 => if is_number_text b then sonic_f32 b else not_json Err
     | TNum => if is_number_text b then Ok (VStr b) else not_json Err
     | TStr =>
-      match opt_trim b with
-      | Some t' =>                                  (* optdec only: whitespace around the inner literal *)
-        match t' with
-        | q1 :: r1 =>
-          match rev r1 with
-          | q2 :: m =>
-            if (q1 =? 34) && (q2 =? 34) then
-              match unquote false false (rev m) with
-              | Some u2 => if existsb (fun c => c <? 32) (rev m) then Unk else Ok (VStr u2)
-              | None => Err
-              end
-            else Err
-          | [] => Err
-          end
-        | [] => Err
-        end
-      | None =>
       (* _OP_unquote: the body must start and end with an escaped quote; unquote_twice decodes the middle twice *)
       match b with
       | c1 :: c2 :: r =>
@@ -173,7 +142,6 @@ Section Sonic.
         else Err
       | _ => Err
       end
-      end
     | _ => Err
     end.
 
@@ -184,13 +152,7 @@ Section Sonic.
       if bytes_eqb b lit_null then (match t with TPtr _ => Ok VNil | _ => Ok v end)   (* is_null_quote *)
       else match b with
            | [] => Err                                                             (* check_char_0 on the quote *)
-           | _ => if (match opt_trim b with
-                      | Some t' => bytes_eqb t' lit_null && (match t with TStr | TPtr TStr => true | _ => false end)
-                      | None => false
-                      end)
-                  then (match t with TPtr _ => Unk | _ => Ok v end)      (* optdec: a padded null stores nothing *)
-                  else
-                  match t with
+           | _ => match t with
                   | TPtr e => do x <- sonic_quoted_base e b; Ok (VPtr x)
                   | _ => sonic_quoted_base t b
                   end
